@@ -52,7 +52,7 @@ def windows(ck):
         if err:
             raise RuntimeError(f"window harness failed (seed {seed}): {err}")
         for k, w_ in enumerate(ws):
-            wins.append(dict({"final": w_["final"]}, **({"settled": w_["settled"]} if w_.get("settled") else {})))
+            wins.append(dict({"final": w_["final"]}, **({"settled": {"mb": w_["settled"]["mb"], "ss": w_["settled"]["ss"]}} if w_.get("settled") else {})))
             origin.append((seed, k, w_))
     tmp = tempfile.mkdtemp(prefix="verif-c13w-")
     try:
